@@ -19,7 +19,10 @@
 (* where st is the abstract state after the step.                           *)
 EXTENDS Pool, TLC, Json, CSV, IOUtils
 
-CONSTANTS MaxSteps,        \* hist entries before the behaviour starts draining
+CONSTANTS SerialStorage,   \* TRUE: Save and Delete exclude each other (preParamsStorage.mutex
+                           \* is held while the persistence handle is called), so a GetNow
+                           \* cannot reach Delete while a Save is in progress and vice versa
+          MaxSteps,        \* hist entries before the behaviour starts draining
           MaxEmptyPops     \* GetNow calls on an empty pool per behaviour
 
 VARIABLE hist
@@ -36,6 +39,11 @@ PushReady(w) == workers[w].pc = "push" /\ Len(pool) < Size
 DropReady(w) == workers[w].pc = "push" /\ ~workers[w].live
 TauEnabled == \E w \in WIds : workers[w].pc = "top" \/ PushReady(w) \/ DropReady(w)
 
+\* somebody is inside a storage call (parked by the harness in the handle)
+InStorage == \/ \E w \in WIds : workers[w].pc = "save"
+             \/ \E g \in Getters : getters[g].pc = "popped"
+StorageFree == ~SerialStorage \/ ~InStorage
+
 Draining == Len(hist) >= MaxSteps
 EmptyPops == Cardinality({i \in DOMAIN hist : hist[i].a = "GPopEmpty"})
 Quiet == ~TauEnabled /\ ~Draining
@@ -49,13 +57,13 @@ GTau ==
        \/ WDrop(w) /\ E("WDrop", w, 0, {}, "", TRUE, PushReady(w), Append(pool, workers[w].val))
 
 GWorker ==
-    /\ Quiet
+    /\ ~TauEnabled
     /\ \E w \in WIds :
-          \/ WGenerate(w)    /\ E("WGenerate", w, 0, {}, nextVal, FALSE, FALSE, <<>>)
-          \/ WGenerateNil(w) /\ E("WGenerateNil", w, 0, {}, "", FALSE, FALSE, <<>>)
-          \/ WSaveOk(w)      /\ E("WSaveOk", w, 0, {}, "", FALSE, FALSE, <<>>)
-          \/ WSaveFail(w)    /\ E("WSaveFail", w, 0, {}, "", FALSE, FALSE, <<>>)
-          \/ \E R \in Readable(disk \cup {workers[w].val}) :
+          \/ ~Draining /\ StorageFree /\ WGenerate(w) /\ E("WGenerate", w, 0, {}, nextVal, FALSE, FALSE, <<>>)
+          \/ ~Draining /\ WGenerateNil(w) /\ E("WGenerateNil", w, 0, {}, "", FALSE, FALSE, <<>>)
+          \/ WSaveOk(w) /\ E("WSaveOk", w, 0, {}, "", FALSE, FALSE, <<>>)   \* also while draining
+          \/ ~Draining /\ WSaveFail(w) /\ E("WSaveFail", w, 0, {}, "", FALSE, FALSE, <<>>)
+          \/ ~Draining /\ \E R \in Readable(disk \cup {workers[w].val}) :
                 WSaveCrash(w, R) /\ E("WSaveCrash", w, 0, R, "", FALSE, FALSE, <<>>)
 
 GSched ==
@@ -67,7 +75,7 @@ GSched ==
 GGet ==
     /\ ~TauEnabled
     /\ \E g \in Getters :
-          \/ GPop(g)      /\ E("GPop", 0, g, {}, Head(pool), FALSE, FALSE, <<>>)
+          \/ StorageFree /\ GPop(g) /\ E("GPop", 0, g, {}, Head(pool), FALSE, FALSE, <<>>)
           \/ GDeleteOk(g) /\ E("GDeleteOk", 0, g, {}, getters[g].val, FALSE, FALSE, <<>>)
           \/ ~Draining /\ EmptyPops < MaxEmptyPops /\ GPopEmpty(g) /\ E("GPopEmpty", 0, g, {}, "empty", FALSE, FALSE, <<>>)
           \/ ~Draining /\ GDeleteFail(g) /\ E("GDeleteFail", 0, g, {}, "err", FALSE, FALSE, <<>>)
